@@ -123,6 +123,9 @@ class Check:
         replay_dir = os.path.join(VERIF, "replay", self.pid)
         shown = 0
         for key, (summary, case) in self.violations.items():
+            if shown >= 100:
+                shown += 1
+                continue
             os.makedirs(replay_dir, exist_ok=True)
             path = os.path.join(replay_dir, sha(key) + ".json")
             with open(path, "w") as fh:
@@ -132,7 +135,7 @@ class Check:
                 out_lines.append("VIOLATION property=%s replay=%s  # %s" % (self.pid, path, summary[:300].replace("\n", "\\n")))
             shown += 1
         if shown > 40:
-            out_lines.append("# ... %d further violations written to %s" % (shown - 40, replay_dir))
+            out_lines.append("# ... %d further violations (the first 100 are written to %s)" % (shown - 40, replay_dir))
         coverage = dict(coverage)
         coverage.setdefault("known_findings_observed", self.known_seen)
         coverage.setdefault("inconclusive", self.inconclusive[:20])
